@@ -4,6 +4,8 @@
    firings anywhere). *)
 From Coq Require Import List NArith Bool PeanoNat.
 From GP Require Import Model.MuxBroker Model.Params Proofs.MuxBrokerP.
+From GP Require Generated Model.Conc Proofs.ConcP.
+From Coq Require Import ZArith.
 Import ListNotations.
 
 (* routing: an Accept(n) and a Dial(m) that ended up on the same stream have n = m, and that stream
@@ -46,3 +48,31 @@ Example C06_nonvacuous :
   | None => False
   end.
 Proof. vm_compute. repeat split; reflexivity. Qed.
+
+(* "Each net/rpc Dispense therefore reaches the server object created for that dispense": for any number of concurrent
+   dispenses with distinct ids (distinctness of allocated ids is C20_nextid_distinct), in any interleaving with each
+   other and with anything else on the broker, the stream the client of dispense j obtained is the one accepted -- and
+   served with that request's implementation -- by the accepting goroutine of dispense j, never that of another dispense *)
+Theorem C06_dispense_reaches_own_server : forall P s (ds : list dispense) j k i,
+  reachable P s -> NoDup (map d_id ds) -> In j ds -> In k ds ->
+  tlookup (thr s) (d_dial j) = Some (Done (DialOk (d_id j) i)) ->
+  tlookup (thr s) (d_acc k) = Some (Done (AccOk (d_id k) i)) ->
+  j = k.
+Proof. exact dispense_reaches_own_server. Qed.
+Print Assumptions C06_dispense_reaches_own_server.
+
+(* ... and with the ids taken from the allocator itself (MuxBroker.NextId, an atomic add on a uint32, as read from the
+   source): up to 2^32 dispenses, issued from any goroutines in any order *)
+Theorem C06_dispenses_with_allocated_ids : forall P s (calls : list nat) (counter : Z) (ds : list dispense) j k i,
+  (Z.of_nat (List.length calls) <= 4294967296)%Z ->
+  map d_id ds = map Z.to_N (Conc.ids_of counter (List.concat (map (Conc.nextid_events Generated.nextid_atomic) calls))) ->
+  reachable P s -> In j ds -> In k ds ->
+  tlookup (thr s) (d_dial j) = Some (Done (DialOk (d_id j) i)) ->
+  tlookup (thr s) (d_acc k) = Some (Done (AccOk (d_id k) i)) ->
+  j = k.
+Proof.
+  intros P s calls counter ds j k i Hn Hids R Hj Hk Hd Ha.
+  apply (dispense_reaches_own_server P s ds j k i R); auto.
+  rewrite Hids. exact (ConcP.nextid_calls_distinct_N Generated.nextid_atomic calls counter eq_refl Hn).
+Qed.
+Print Assumptions C06_dispenses_with_allocated_ids.
